@@ -77,6 +77,53 @@ def run_traced(code):
     return out.getvalue(), exc, events
 
 
+# programs whose line table has several entries at one bytecode offset (folded multi-line defaults / tuples after a
+# statement on the same line, redefinitions on one line): where the 3.8 / 3.9 tracer can see "redundant" entries
+TRACE_SHAPES = [
+    "y = 1; f = (lambda a=1,\n    b=2: 0)\nz = 2\n",
+    "y = 1; t = (1,\n     2,\n     3)\nz = t\n",
+    "def g(a=(1,\n        2)): return a\nprint(g())\n",
+    "x = 0; d = {'a': 1,\n         'b': 2}\nprint(sorted(d))\n",
+    "class A: pass\nclass A: pass\nprint(A.__name__)\n",
+    "for i in range(2):\n    y = i; t = (i,\n        1)\nprint(t)\n",
+]
+
+
+def dedup_runs(events):
+    out = []
+    for e in events:
+        if not out or out[-1] != e:
+            out.append(e)
+    return out
+
+
+def report_difference(ctx, CodeData, what, src, top, a, b):
+    """a, b: (stdout, exception, line events) of the original and of normalize().to_code()"""
+    which = "stdout" if a[0] != b[0] else "exception" if a[1] != b[1] else "trace"
+    label = what
+    if which == "trace" and dedup_runs(a[2]) == dedup_runs(b[2]) and len(b[2]) < len(a[2]):
+        # only repeated events of an unchanged line went missing: is a cancelling pair of line entries the cause?
+        def cancelling(code):
+            d = CodeData.from_code(code)
+            # several line entries at one offset that end on the line the previous instruction already had: the entries
+            # cancel (3.8 writes [.., 0, +1, -1], 3.9 the first delta as the entry itself and [-1] as the extra one)
+            for x in d.all_code_data():
+                prev = None
+                for blk in x.blocks:
+                    for ins in blk:
+                        offs = ins._line_offsets_override
+                        if offs and any(offs) and prev is not None and ins.line_number == prev:
+                            return True
+                        prev = ins.line_number
+            return False
+        try:
+            if cancelling(top):
+                label = "cancelling-line-pair[%s]" % what
+        except Exception:  # noqa
+            pass
+    ctx.violation("behaviour-differs", "%s: %s differs after normalize().to_code()" % (label, which), {"source": src, "which": which})
+
+
 def opcode_traces(code):
     """first invocation of every code object of the program: the byte offsets CPython's eval loop visits
     (sys.settrace with f_trace_opcodes), capped"""
@@ -232,6 +279,17 @@ def work(ctx):
                         pass
         ctx.count("executed-exception:%s" % a[1])
         if a != b:
-            which = "stdout" if a[0] != b[0] else "exception" if a[1] != b[1] else "trace"
-            ctx.violation("behaviour-differs", "generated program %d (seed %s): %s differs after normalize().to_code()" % (i, ctx.seed, which),
-                          {"source": src, "which": which})
+            report_difference(ctx, CodeData, "generated program %d (seed %s)" % (i, ctx.seed), src, top, a, b)
+    # ---- fixed shapes for the traced-line clause: several line-table entries at one bytecode offset
+    for j, src in enumerate(TRACE_SHAPES):
+        try:
+            top = compile(src, "<run>", "exec", dont_inherit=True)
+        except SyntaxError:
+            continue
+        norm = check("shape%d" % j, top, True)
+        if norm is None:
+            continue
+        a, b = run_traced(top), run_traced(norm)
+        ctx.count("executed-shapes")
+        if a != b:
+            report_difference(ctx, CodeData, "trace shape %d" % j, src, top, a, b)
